@@ -74,6 +74,7 @@ type FnCtx struct {
 	Notes  []string
 
 	nextRef   int
+	freshRefs []*smt.Term
 	refBase   *smt.Term
 	blockBase map[*ssa.BasicBlock]*smt.Term
 	strLits   map[string]*smt.Term
@@ -168,6 +169,7 @@ func (fc *FnCtx) reset(dry bool) {
 	fc.Used = map[string]bool{}
 	fc.Notes = nil
 	fc.nextRef = 0
+	fc.freshRefs = nil
 	fc.refBase = nil
 	fc.blockBase = map[*ssa.BasicBlock]*smt.Term{}
 	fc.strLits = map[string]*smt.Term{}
@@ -503,7 +505,18 @@ func (fc *FnCtx) havocAll(st *State) {
 			fc.constFieldsUsed[k] = true
 			continue
 		}
+		old := st.H[k]
 		fc.havocKey(st, k)
+		// objects allocated here that have not escaped yet cannot be touched by the callee
+		if old != nil {
+			for _, r := range fc.freshRefs {
+				key, _ := freshRefKey(r)
+				if fc.escaped[key] {
+					continue
+				}
+				st.H[k] = fc.S.Define("H_"+k, smt.Store(st.H[k], r, smt.Select(old, r)))
+			}
+		}
 	}
 	fc.abstr("havoc-all")
 }
@@ -525,7 +538,12 @@ func (fc *FnCtx) fieldKey(structT types.Type, idx int) (key string, ft types.Typ
 
 func (fc *FnCtx) subRef(key string, base *smt.Term) *smt.Term {
 	fn := "sub!" + smt.Ident(key)
-	fc.S.DeclareFun(fn, []smt.Sort{smt.Int}, smt.Int)
+	if !fc.S.Declared(fn) {
+		fc.S.DeclareFun(fn, []smt.Sort{smt.Int}, smt.Int)
+		r := smt.Const("r!s", smt.Int)
+		app := smt.App(fn, smt.Int, r)
+		fc.S.Assert(smt.Forall([]*smt.Term{r}, smt.And(smt.Implies(smt.Lt(r, smt.IntLit(0)), smt.Lt(app, smt.IntLit(0))), smt.Implies(smt.Gt(r, smt.IntLit(0)), smt.Gt(app, smt.IntLit(0)))), []*smt.Term{app}), "an embedded struct is as fresh as the object containing it")
+	}
 	t := smt.App(fn, smt.Int, base)
 	return t
 }
@@ -537,10 +555,14 @@ func (fc *FnCtx) subRef(key string, base *smt.Term) *smt.Term {
 // everything the loop-carried state can mention.
 func (fc *FnCtx) newRef() *smt.Term {
 	fc.nextRef++
+	var r *smt.Term
 	if fc.refBase == nil {
-		return smt.IntLit(int64(-fc.nextRef))
+		r = smt.IntLit(int64(-fc.nextRef))
+	} else {
+		r = smt.App("+", smt.Int, fc.refBase, smt.IntLit(int64(-fc.nextRef)))
 	}
-	return smt.App("+", smt.Int, fc.refBase, smt.IntLit(int64(-fc.nextRef)))
+	fc.freshRefs = append(fc.freshRefs, r)
+	return r
 }
 
 // freshRefKey reports whether t is a reference allocated by this function
